@@ -14,7 +14,7 @@ PARTIAL = [
     "cos / sin of the angle are passed to the model as the doubles Python computes (no use of c^2 + s^2 = 1 is made; the theorem holds for any c, s)",
     "object identity (inplace vs copy) is a runtime notion: checked by the oracle (id(), snapshot of the input), not a Lean theorem",
     "containers: checked by the oracle; the Lean model is per shape",
-    "end-to-end statements (model's translate / scale / rotate on a Shape, evaluation through the span search, whole closed domain, curves / surfaces / volumes, rational and not, any finite sequence of calls) assume a well-formed shape (ShapeWF: sorted knots, at least degree + 1 control points and a non-empty last span per direction, net of the right size) and, for rational shapes, positive weights; rotate is stated for 2-D and 3-D points (the only cases the library's formulas are meant for)",
+    "end-to-end statements (model's translate / scale / rotate on a Shape, evaluation through the span search, whole closed domain, curves / surfaces / volumes, rational and not, any finite sequence of calls) assume a well-formed shape (ShapeWF = the driver's shapeOk / the library's setters: degree >= 1, a knot list of exactly size + degree + 1 sorted knots, at least degree + 1 control points and a non-empty last span per direction, net of the right size) and, for rational shapes, positive weights; rotate is stated for 2-D and 3-D points (the only cases the library's formulas are meant for) and axis 0, 1 or 2 (for other values operations.rotate raises; also part of Xform.Ok for sequences)",
 ]
 
 
